@@ -24,6 +24,11 @@ def h1(x):
 def h0(x):
     p = x * 2
     return h1(p)
+
+def hgen(n):
+    for i in range(n):
+        q = h1(i)
+        yield q
 '''
 VARS = ["x", "a", "b", "c", "#value"]
 BODY = [[0, 1, 2, 3, 4], [0, 1, 2, 4]]
@@ -37,6 +42,11 @@ class Universe:
         self.mod = pyprog.make_module(SRC, "verif_lifecycle")
         self.funs = [self.mod.f0, self.mod.f1]
         self.orig = [f.__code__ for f in self.funs]
+        # an instrumented generator (outside the model): it is advanced in the middle of histories and must hand
+        # the handler context back exactly as it found it
+        import ptera
+        ptera.tooled.inplace(self.mod.hgen)
+        self.gen = None
         self.elems = []          # Element objects (identity) -> id
         self.var_of = []
 
@@ -157,6 +167,17 @@ class Run:
                 out = "exception:%s:%s" % (type(e).__name__, e)
         elif kind == "attach":
             self.attach(op["p"])
+        elif kind == "resume":
+            from ptera.overlay import HandlerCollection
+
+            def pairs():
+                cur = HandlerCollection.current.get()
+                return [] if cur is None else [(id(a), id(b)) for a, b in cur.handler_pairs]
+            before_pairs = pairs()
+            if self.uni.gen is None:
+                self.uni.gen = self.uni.mod.hgen(10 ** 6)
+            next(self.uni.gen)
+            out = {"context_same": pairs() == before_pairs}
         elif kind == "storm":
             # outside the model: a call (of other functions) under an overlay with a nested selector and a total
             # handler that raises when the call ends — the call is left by that exception, then the with-block;
